@@ -377,18 +377,37 @@ theorem lowerE_mono : ∀ (e : Expr) (c : Nat) (code : Code) (v : Value) (c' : N
     have m5 := lowerChain_mono arms _ _ _ _ _ dflt c3 h5
     have m6 := lowerArms_mono arms _ _ codes c' h6
     exact ⟨by omega, ⟨c3, rfl, by omega⟩⟩
-  | .for .., _, _, _, _, h => by simp [lowerE] at h
+  | .for x l b, c, code, v, c', h => by
+    simp [lowerE, Option.bind_eq_some_iff] at h
+    obtain ⟨cl, vl, c1, h1, cb, xb, c3, h2, _, rfl, rfl⟩ := h
+    have ⟨m1, b1⟩ := lowerE_mono l _ cl vl c1 h1
+    have ⟨a1, _⟩ := atv_spec vl c1 b1
+    have ⟨m2, _⟩ := lowerBlock_mono b _ cb xb c3 h2
+    exact ⟨by omega, trivial⟩
   | .ctor k args, c, code, v, c', h => by
     simp [lowerE, Option.bind_eq_some_iff] at h
     obtain ⟨ca, xs, c1, h1, _, rfl, rfl⟩ := h
     have ⟨m1, _⟩ := lowerCtorArgs_mono args c ca xs c1 h1
     exact ⟨by omega, ⟨c1, rfl, by omega⟩⟩
-  | .list .., _, _, _, _, h => by simp [lowerE] at h
+  | .list es, c, code, v, c', h => by
+    simp [lowerE, Option.bind_eq_some_iff] at h
+    obtain ⟨ce, c1, h1, _, rfl, rfl⟩ := h
+    have m1 := lowerElems_mono es _ _ _ ce c1 h1
+    exact ⟨by omega, ⟨c, rfl, by omega⟩⟩
   | .fstr ps, c, code, v, c', h => by
     simp [lowerE, Option.bind_eq_some_iff] at h
     obtain ⟨cp, c1, h1, _, rfl, rfl⟩ := h
     have m1 := lowerParts_mono ps _ _ cp c1 h1
     exact ⟨by omega, ⟨c, rfl, by omega⟩⟩
+theorem lowerElems_mono : ∀ (es : Exprs) (lst u : Var) (c : Nat) (code : Code) (c' : Nat),
+    lowerElems es lst u c = some (code, c') → c ≤ c'
+  | .nil, lst, u, c, code, c', h => by simp [lowerElems] at h; omega
+  | .cons e es, lst, u, c, code, c', h => by
+    simp [lowerElems, Option.bind_eq_some_iff] at h
+    obtain ⟨ce, ve, c1, h1, cs, h2, _⟩ := h
+    have ⟨m1, _⟩ := lowerE_mono e (c + 1) ce ve c1 h1
+    have := lowerElems_mono es lst u (c1 + 1) cs c' h2
+    omega
 theorem lowerParts_mono : ∀ (ps : Parts) (acc : Var) (c : Nat) (code : Code) (c' : Nat),
     lowerParts ps acc c = some (code, c') → c ≤ c'
   | .nil, acc, c, code, c', h => by simp [lowerParts] at h; omega
@@ -514,6 +533,9 @@ def Value.vars : Value → List Var
   | .neg x => [x]
   | .callRt _ args => args
   | .call _ args => args
+  | .listNew => []
+  | .listGet l i => [l, i]
+  | .idxAdd a b => [a, b]
   | .toStr x => [x]
   | .append a b => [a, b]
   | .disc x => [x]
@@ -671,7 +693,10 @@ theorem lowerE_valueBound (e : Expr) (c : Nat) (code : Code) (v : Value) (c' : N
     have hm := (lowerE_mono _ c code v c' h).2
     obtain ⟨_, _, _, _, _, _, _, _, _, _, _, _, _, _, _, _, _, _, _, _, rfl⟩ := lowerE_mtch_inv h
     obtain ⟨k', hk', hlt⟩ := hm; cases hk'; simp [Value.vars] at hk; omega
-  | «for» x l b => simp [lowerE] at h
+  | «for» x l b =>
+    simp [lowerE, Option.bind_eq_some_iff] at h
+    obtain ⟨_, _, _, _, _, _, _, _, _, rfl, _⟩ := h
+    simp [Value.vars] at hk
   | ctor k' args =>
     have hm := (lowerE_mono _ c code v c' h).2
     simp [lowerE, Option.bind_eq_some_iff] at h
@@ -690,7 +715,11 @@ theorem lowerE_valueBound (e : Expr) (c : Nat) (code : Code) (v : Value) (c' : N
       have ⟨m1, b1⟩ := lowerE_mono e1 c ce ve c1 h1
       simp [Value.vars] at hk
       exact atv_bound ve c1 b1 hk.symm
-  | list es => simp [lowerE] at h
+  | list es =>
+    have hm := (lowerE_mono _ c code v c' h).2
+    simp [lowerE, Option.bind_eq_some_iff] at h
+    obtain ⟨_, _, _, _, rfl, _⟩ := h
+    obtain ⟨k', hk', hlt⟩ := hm; cases hk'; simp [Value.vars] at hk; omega
   | fstr ps =>
     have hm := (lowerE_mono _ c code v c' h).2
     simp [lowerE, Option.bind_eq_some_iff] at h
@@ -812,5 +841,125 @@ theorem exec_storeFields {P : Prog} {k : Nat} {to : Var} : ∀ (xs : List Var) (
       refine ⟨σ1, ?_, by simpa using hv1, fun y hy => by rw [hk1 y hy, set_other _ _ hy]⟩
       have := ExecC.cons s1 hx1
       simpa [storeFields] using this
+
+/-! ### lists -/
+
+/-- the discriminant `List.get` hands back: `Some` = 0, `None` = 1 -/
+def optDisc : Option Int → Nat
+  | some _ => 0
+  | none => 1
+
+theorem drop_cons_get {α} : ∀ (l : List α) (j : Nat) (v : α) (vs : List α),
+    l.drop j = v :: vs → l[j]? = some v ∧ l.drop (j + 1) = vs
+  | [], j, v, vs, h => by simp at h
+  | a :: l, 0, v, vs, h => by simp at h; obtain ⟨rfl, rfl⟩ := h; simp
+  | a :: l, j + 1, v, vs, h => by
+    simp at h
+    have := drop_cons_get l j v vs h
+    simpa using this
+
+theorem drop_nil_get {α} : ∀ (l : List α) (j : Nat), l.drop j = [] → l[j]? = none
+  | [], j, _ => by simp
+  | a :: l, 0, h => by simp at h
+  | a :: l, j + 1, h => by simp at h; simpa using h
+
+/-- a `Move` returned by the lowering names a temporary allocated by that very lowering -/
+theorem lowerE_moveLower (e : Expr) (c : Nat) (code : Code) (x : Var) (c' : Nat)
+    (h : lowerE e c = some (code, .move x, c')) : ∃ k, x = .t k ∧ c ≤ k := by
+  cases e with
+  | lit _ => simp [lowerE] at h
+  | var _ => simp [lowerE] at h
+  | host f args => simp [lowerE, Option.bind_eq_some_iff] at h
+  | call f args => simp [lowerE, Option.bind_eq_some_iff] at h
+  | bin op l r => simp [lowerE, Option.bind_eq_some_iff] at h
+  | not e1 => simp [lowerE, Option.bind_eq_some_iff] at h
+  | neg e1 => simp [lowerE, Option.bind_eq_some_iff] at h
+  | «while» cnd b => simp [lowerE, Option.bind_eq_some_iff] at h
+  | assign y e1 => simp [lowerE, Option.bind_eq_some_iff] at h
+  | cassign op y e1 => simp [lowerE, Option.bind_eq_some_iff] at h
+  | ret e1 => simp [lowerE, Option.bind_eq_some_iff] at h
+  | accept e1 => simp [lowerE, Option.bind_eq_some_iff] at h
+  | reject e1 => simp [lowerE, Option.bind_eq_some_iff] at h
+  | «try» e1 => simp [lowerE, Option.bind_eq_some_iff] at h
+  | «for» y l b => simp [lowerE, Option.bind_eq_some_iff] at h
+  | field e1 i =>
+    by_cases hv : ∃ y, e1 = .var y
+    · obtain ⟨y, rfl⟩ := hv; simp [lowerE] at h
+    · obtain ⟨_, _, _, _, _, hv', _⟩ := lowerE_field_inv hv h; cases hv'
+  | and l r =>
+    simp [lowerE, Option.bind_eq_some_iff] at h
+    obtain ⟨_, _, _, _, _, _, _, _, _, rfl, _⟩ := h
+    exact ⟨c, rfl, Nat.le_refl _⟩
+  | or l r =>
+    simp [lowerE, Option.bind_eq_some_iff] at h
+    obtain ⟨_, _, _, _, _, _, _, _, _, rfl, _⟩ := h
+    exact ⟨c, rfl, Nat.le_refl _⟩
+  | ite cnd th el =>
+    simp [lowerE, Option.bind_eq_some_iff] at h
+    obtain ⟨cc, vc, c1, h1, ct, xt, c2, h2, _, _, _, _, _, rfl, _⟩ := h
+    have ⟨m1, b1⟩ := lowerE_mono cnd c cc vc c1 h1
+    have ⟨a1, _⟩ := atv_spec vc c1 b1
+    have ⟨m2, _⟩ := lowerBlock_mono th _ ct xt c2 h2
+    exact ⟨c2, rfl, by omega⟩
+  | if1 cnd th =>
+    simp [lowerE, Option.bind_eq_some_iff] at h
+    obtain ⟨cc, vc, c1, h1, ct, xt, c2, h2, _, rfl, _⟩ := h
+    have ⟨m1, b1⟩ := lowerE_mono cnd c cc vc c1 h1
+    have ⟨a1, _⟩ := atv_spec vc c1 b1
+    have ⟨m2, _⟩ := lowerBlock_mono th _ ct xt c2 h2
+    exact ⟨c2, rfl, by omega⟩
+  | block b =>
+    simp [lowerE, Option.bind_eq_some_iff] at h
+    obtain ⟨cb, xb, c1, h1, _, rfl, _⟩ := h
+    have ⟨m1, _⟩ := lowerBlock_mono b c cb xb c1 h1
+    exact ⟨c1, rfl, m1⟩
+  | some e1 =>
+    simp [lowerE, Option.bind_eq_some_iff] at h
+    obtain ⟨ce, ve, c1, h1, _, rfl, _⟩ := h
+    have ⟨m1, b1⟩ := lowerE_mono e1 c ce ve c1 h1
+    have ⟨a1, _⟩ := atv_spec ve c1 b1
+    exact ⟨_, rfl, by omega⟩
+  | none =>
+    simp [lowerE] at h
+    obtain ⟨_, rfl, _⟩ := h
+    exact ⟨c, rfl, Nat.le_refl _⟩
+  | ctor k args =>
+    simp [lowerE, Option.bind_eq_some_iff] at h
+    obtain ⟨ca, xs, c1, h1, _, rfl, _⟩ := h
+    have ⟨m1, _⟩ := lowerCtorArgs_mono args c ca xs c1 h1
+    exact ⟨c1, rfl, m1⟩
+  | record fs =>
+    simp [lowerE, Option.bind_eq_some_iff] at h
+    obtain ⟨_, _, _, _, rfl, _⟩ := h
+    exact ⟨c, rfl, Nat.le_refl _⟩
+  | list es =>
+    simp [lowerE, Option.bind_eq_some_iff] at h
+    obtain ⟨_, _, _, _, rfl, _⟩ := h
+    exact ⟨c, rfl, Nat.le_refl _⟩
+  | fstr ps =>
+    simp [lowerE, Option.bind_eq_some_iff] at h
+    obtain ⟨_, _, _, _, rfl, _⟩ := h
+    exact ⟨c, rfl, Nat.le_refl _⟩
+  | mtch s isOpt arms =>
+    obtain ⟨_, ce, ve, c1, ch0, c0, ch1, c1', ch2, c2, dflt, c3, codes, h1, h2, h3, h4, h5, h6, _, hv⟩ := lowerE_mtch_inv h
+    cases hv
+    have ⟨m1, b1⟩ := lowerE_mono s c ce ve c1 h1
+    have ⟨a1, _⟩ := atv_spec ve c1 b1
+    have m2 := lowerChain_mono arms _ _ _ _ _ ch0 c0 h2
+    have m3 := lowerChain_mono arms _ _ _ _ _ ch1 c1' h3
+    have m4 := lowerChain_mono arms _ _ _ _ _ ch2 c2 h4
+    have m5 := lowerChain_mono arms _ _ _ _ _ dflt c3 h5
+    exact ⟨c3, rfl, by omega⟩
+
+/-- the variable `assign_to_var` leaves the value in was allocated at or above the start counter -/
+theorem atvVar_lower (e : Expr) (c : Nat) (code : Code) (v : Value) (c1 : Nat)
+    (h : lowerE e c = some (code, v, c1)) {k : Nat} (hk : atvVar v c1 = .t k) : c ≤ k := by
+  have ⟨m1, _⟩ := lowerE_mono e c code v c1 h
+  by_cases hmv : ∃ x, v = .move x
+  · obtain ⟨x, rfl⟩ := hmv
+    obtain ⟨k', rfl, hk'⟩ := lowerE_moveLower e c code x c1 h
+    simp [atvVar] at hk; subst hk; exact hk'
+  · have : atvVar v c1 = .t c1 := by cases v <;> simp_all [atvVar]
+    rw [this] at hk; cases hk; exact m1
 
 end RotoV.LowerS
